@@ -109,7 +109,7 @@ def run(chk):
     n = chk.n(150, 6000)
     for i, L in enumerate(CORPUS):
         one_history(chk, sess, L, "corpus%d" % i, "corpus")
-    cancel_family(chk, sess, chk.n(40, 1500))
+    cancel_family(chk, sess, chk.n(80, 1500))
     for i in range(n):
         rng = random.Random(chk.rng.random())
         L = add_null_builds(rng, E.gen_history(rng, sched=SCHEDS[i % 3], nops=(3, 12)))
